@@ -372,7 +372,14 @@ func c07SchedRun(c, b int, steps []string) string {
 	ctl := NewCtl()
 	ctl.ParkAt("*", c07PtWoke)
 	ctl.ParkAt("*", c07PtPolled)
-	q := fpgo.NewBufferedChannelQueue[int](c, b, 10000).SetLoadFromPoolDuration(20 * time.Microsecond)
+	// node-pool size: every other case keeps no spare nodes and trims every 100 µs, so that the freeNodePool goroutine
+	// (Lock; KeepNodePoolCount) really runs between the steps and recycled nodes travel through the sync.Pool
+	hook := 10000
+	if len(steps)%2 == 1 {
+		hook = 0
+	}
+	q := fpgo.NewBufferedChannelQueue[int](c, b, hook).SetLoadFromPoolDuration(20 * time.Microsecond).
+		SetFreeNodeHookPoolIntervalDuration(100 * time.Microsecond)
 	m := &c07Sched{ctl: ctl, q: q}
 	m.handle = q.GetChannel() // also posts the first token
 	if !ctl.WaitAt("*", c07PtWoke, c07WaitDur()) {
@@ -417,7 +424,10 @@ func c07Stress(c, b, p, k, n int, mode string, seed int64) string {
 		})
 		defer ctl.Uninstall()
 	}
-	q := fpgo.NewBufferedChannelQueue[int](c, b, 64).SetLoadFromPoolDuration(durs[rng.Intn(len(durs))])
+	// node-pool size 0 / 1 / 64: with 0 or 1 the freeNodePool goroutine trims (under the lock) all the time
+	hooks := []int{0, 1, 64}
+	q := fpgo.NewBufferedChannelQueue[int](c, b, hooks[rng.Intn(len(hooks))]).SetLoadFromPoolDuration(durs[rng.Intn(len(durs))]).
+		SetFreeNodeHookPoolIntervalDuration(durs[1+rng.Intn(len(durs)-1)])
 	total := p * n
 	retry := c >= 1
 	var accepted, delivered, prodDone, panics, slow int64
